@@ -377,6 +377,9 @@ def plan_for(prop, tier, seed):
         P["families"] = [fam("runs_exh", shards=12 if T else 6, sample=8 if T else 12, focus="int"), fam("runs_rand", shards=4, focus="int"),
                          fam("stream_exh", shards=6 if T else 3, sample=2 if T else 4, focus="int"), fam("stream_rand", shards=2, focus="int"),
                          fam("wide", shards=3, focus="int"), fam("budget", shards=2, count=2000 if T else 300, focus="int"),
+                         # histories whose runs share one InterruptibilityState (reborrow): a signal sent during one run is pending
+                         # when the next begins
+                         fam("multi_seq", shards=2, count=6000 if T else 600, focus="share", tag="sh"),
                          fam("budget_exh", shards=8 if T else 3, sample=1 if T else 6, focus="int")]
         P["nontrivial_keys"] = ["return_interruptible", "handout_after_signal"]
         P["rule"] = "non-trivial = distinct traces of an interrupting strategy in which a signal was sent or pending"
